@@ -291,12 +291,14 @@ impl IntoSqlBuilder for Member {
                     })
                 }
                 MemberPrime::Call { call } => {
+                    // the parser stores call arguments last-first
                     builder = Box::new(FunctionCallBuilder {
                         primary: builder,
                         args: call
                             .node()
                             .exprs
                             .iter()
+                            .rev()
                             .map(|a| a.node().into_sql_builder())
                             .collect::<ToSqlResult<Vec<_>>>()?,
                     });
@@ -335,6 +337,7 @@ impl IntoSqlBuilder for MemberPrime {
                     .node()
                     .exprs
                     .iter()
+                    .rev()
                     .map(|expr| {
                         let builder = expr.into_sql_builder()?;
                         builder.to_sql()
